@@ -1089,6 +1089,13 @@ func (e *executor) executeGroupBy(ctx context.Context, index string, c *pql.Call
 	} else if hasLimit {
 		limit = int(lim)
 	}
+	// Results are cut to the limit while they are merged, and the offset is
+	// applied to the merged list: keep that many more.
+	if offset, hasOffset, err := c.UintArg("offset"); err != nil {
+		return nil, err
+	} else if hasOffset && limit+int(offset) > limit {
+		limit += int(offset)
+	}
 	filter, _, err := c.CallArg("filter")
 	if err != nil {
 		return nil, err
@@ -1144,12 +1151,20 @@ func (e *executor) executeGroupBy(ctx context.Context, index string, c *pql.Call
 	}
 	results, _ := other.([]GroupCount)
 
+	// Offset and limit shape the final answer only; a remote leg returns its
+	// share of the merge.
+	if opt.Remote {
+		return results, nil
+	}
+
 	// Apply offset.
 	if offset, hasOffset, err := c.UintArg("offset"); err != nil {
 		return nil, err
 	} else if hasOffset {
 		if int(offset) < len(results) {
 			results = results[offset:]
+		} else {
+			results = results[:0]
 		}
 	}
 	// Apply limit.
@@ -1269,6 +1284,12 @@ func (e *executor) executeGroupByShard(ctx context.Context, index string, c *pql
 		return nil, err
 	} else if hasLimit {
 		limit = int(lim)
+	}
+	// The offset is applied after the shards are merged.
+	if offset, hasOffset, err := c.UintArg("offset"); err != nil {
+		return nil, err
+	} else if hasOffset && limit+int(offset) > limit {
+		limit += int(offset)
 	}
 
 	results := make([]GroupCount, 0)
